@@ -88,6 +88,8 @@ class Scheduler:
             except Abort:
                 pass
             except BaseException as e:  # noqa: BLE001 - reported by the caller
+                if type(e).__name__ == "Stalled":
+                    raise
                 mt.exc = e
             finally:
                 sys.settrace(None)
@@ -100,6 +102,8 @@ class Scheduler:
             pass
         except BaseException as e:  # noqa: BLE001 - a bug of the harness itself (observer, chooser): never hang
             self._fatal(e)
+            if type(e).__name__ == "Stalled":
+                raise
 
     def _fatal(self, e):
         if self.internal_error is None:
@@ -195,6 +199,8 @@ class Scheduler:
                 raise
             except BaseException as e:  # noqa: BLE001
                 self._fatal(e)
+                if type(e).__name__ == "Stalled":
+                    raise
                 raise Abort()
 
     def op(self, what):
@@ -207,6 +213,8 @@ class Scheduler:
                 raise
             except BaseException as e:  # noqa: BLE001
                 self._fatal(e)
+                if type(e).__name__ == "Stalled":
+                    raise
                 raise Abort()
 
     def mark(self, phase, yield_here=False):
